@@ -116,7 +116,7 @@ class C16(Engine):
 
     def setup(self):
         q = self.tier == "quick"
-        self.pools = Pools(self.seed, n_gen=14 if q else 250, n_viol=14 if q else 250, n_cut=14 if q else 250,
+        self.pools = Pools(self.seed, n_gen=30 if q else 250, n_viol=60 if q else 400, n_cut=14 if q else 250,
                            corpus_limit=None, tag="c16")
         self.pools.register()
 
@@ -132,6 +132,19 @@ class C16(Engine):
                             ("bom+", "\ufeff" + c), ("nbsp+", "\u00a0" + c), ("+ff", c + "\x0c")):
                 fid = P.add("edge", P.files[b]["name"], c2, f"{P.meta[b]['origin']}{tag}")
                 self.edge_ids.append(fid)
+        # violations placed late in long functions (checks that look far back in the statement history behave differently there)
+        self.late_ids = []
+        longs = sorted((f for f in P.groups.get("gen", []) if P.files[f]["content"].count("\n") > 60), key=lambda f: -len(P.files[f]["content"]))
+        for k, b in enumerate(longs[: (8 if self.tier == "quick" else 60)]):
+            for j in range(2):
+                r = core.derive_rng("c16.late", self.seed, k * 10 + j)
+                lines = P.files[b]["content"]
+                from ..workload import gen_violating
+                for _ in range(40):
+                    c2, op = gen_violating(r, P.files[b]["name"], lines)
+                    if op in ("comment_in_func_late", "decl_late"):
+                        self.late_ids.append(P.add("late", P.files[b]["name"], c2, f"{P.meta[b]['origin']}+{op}"))
+                        break
         P.register()
         P.measure(self.pool)
         q = self.tier == "quick"
@@ -147,6 +160,8 @@ class C16(Engine):
         rng.shuffle(cands)
         n = 56 if q else 1200
         zoo = [f for f in cands if P.meta[f]["group"] == "special_zoo"]
+        late = [f for f in cands if P.meta[f]["group"] == "viol" and any(t in P.meta[f]["origin"] for t in ("_late", "late_", "long_preamble"))]
+        zoo += late[: (4 if q else 100)] + [f for f in self.late_ids if f in cands]
         chosen = withdef[: n // 3] + [f for f in self.edge_ids if f in cands][: n // 3] + zoo
         for cls, k in (("fatal", n // 8), ("notice", n // 12), ("clean", n // 6)):
             chosen += [f for f in cands if P.cls[f] == cls and f not in chosen][:k]
